@@ -137,7 +137,7 @@ func c02(r *core.Run) {
 				}
 				return op.String() == ">"
 			}
-			bad := core.PathExists(fn, p.PassEdges(fn, g), c, nil)
+			bad := p.ReachesUnguarded(fn, c, g)
 			r.Check(!bad, "C02/R2", core.FnName(fn)+":draw-bounded", p.InstrPos(c), "Int63n(n) only behind n > 0", "the challenge draw can be reached with n <= 0 (Int63n panics) — or designates no existing chunk")
 			np := p.ProvAt(n, "", c)
 			okN := np.Any(func(a core.Atom) bool { return strings.HasSuffix(a.Path, ".FileSize") })
@@ -184,41 +184,57 @@ func c02(r *core.Run) {
 		if core.ModuleOf(e) != "storage" {
 			continue
 		}
-		var routine *ssa.Function
-		for _, fn := range p.Summary(e).Funcs {
-			allInstrs(fn, func(in ssa.Instruction) {
-				if _, ok := in.(*ssa.MapUpdate); ok {
-					routine = fn
-				}
-			})
-		}
-		if routine == nil {
+		unit := perProofUnit(p, p.Summary(e).Funcs)
+		if unit.CreditFn == nil {
 			r.Undecided("C02/R3", "rewards:per-proof-routine", "", "not found")
 			continue
 		}
+		if !unit.Complete {
+			r.Undecided("C02/R3", "rewards:per-proof-routine", p.Pos(unit.Core.Pos()), unit.Why)
+			continue
+		}
+		routine := unit.Routine
 		isProvenF := callBoolGuard(p, func(call *ssa.Call, cs []*ssa.Function) bool { return len(cs) == 1 && provenPredicate(p, cs[0]) }, false)
 		isYoungF := callBoolGuard(p, func(call *ssa.Call, cs []*ssa.Function) bool { return len(cs) == 1 && youngPredicate(p, cs[0]) }, false)
 		notFound := foundGuard(p, stProof, false)
-		n := 0
-		for _, eff := range p.Effects(routine) {
-			if !effHas(eff, "Delete", stProof) {
-				continue
+		unguarded := func(at ssa.Instruction, g core.GuardMatch) bool {
+			if at.Parent() == routine && len(p.FindUnguarded(routine, []*core.Effect{{Instr: at}}, g, true)) == 0 {
+				return false
 			}
-			n++
-			u1 := p.FindUnguarded(routine, []*core.Effect{eff}, isYoungF, true)
-			u2 := p.FindUnguarded(routine, []*core.Effect{eff}, anyOf(isProvenF, notFound), true)
-			r.Check(len(u1) == 0 && len(u2) == 0, "C02/R3", "rewards:removal-only-on-miss", p.InstrPos(eff.Instr), "removal behind young=false and (proven=false or proof missing)", "a prover can be removed from a file although its file is young or it proved within the last window")
+			return !unit.guarded(p, at, g)
 		}
-		for _, eff := range p.Effects(routine) {
-			if !effHas(eff, "Set", stProviders) {
-				continue
+		class := func(in ssa.Instruction) string {
+			call, ok := in.(ssa.CallInstruction)
+			if !ok {
+				return ""
 			}
-			n++
-			u1 := p.FindUnguarded(routine, []*core.Effect{eff}, isYoungF, true)
-			u2 := p.FindUnguarded(routine, []*core.Effect{eff}, isProvenF, true)
-			r.Check(len(u1) == 0 && len(u2) == 0, "C02/R3", "rewards:burn-only-on-miss", p.InstrPos(eff.Instr), "burn behind young=false and proven=false", "a provider's burn counter can rise although it proved within the last window or the file is young")
+			out := ""
+			for _, cal := range p.Callees(call) {
+				for _, o := range p.Summary(cal).Store {
+					if o.Kind == "Delete" && o.Module+"/"+o.Prefix == stProof && !strings.Contains(out, "remove") {
+						out += "remove "
+					}
+					if o.Kind == "Set" && o.Module+"/"+o.Prefix == stProviders && !strings.Contains(out, "burn") {
+						out += "burn "
+					}
+				}
+			}
+			return out
 		}
-		r.Floor("C02/R3", n, 3, "remove/burn sites of the per-proof routine")
+		nRem, nBurn := 0, 0
+		for _, in := range unit.sites(class) {
+			c := class(in)
+			if strings.Contains(c, "remove") {
+				nRem++
+				r.Check(!unguarded(in, isYoungF) && !unguarded(in, anyOf(isProvenF, notFound)), "C02/R3", "rewards:removal-only-on-miss", p.InstrPos(in), "removal behind young=false and (proven=false or proof missing)", "a prover can be removed from a file although its file is young or it proved within the last window")
+			}
+			if strings.Contains(c, "burn") {
+				nBurn++
+				r.Check(!unguarded(in, isYoungF) && !unguarded(in, isProvenF), "C02/R3", "rewards:burn-only-on-miss", p.InstrPos(in), "burn behind young=false and proven=false", "a provider's burn counter can rise although it proved within the last window or the file is young")
+			}
+		}
+		r.Floor("C02/R3", nRem, 1, "removal sites of the per-proof routine")
+		r.Floor("C02/R3", nBurn, 1, "burn sites of the per-proof routine")
 		staleDecodeTargets(r, "C02/R4", p.Summary(e).Funcs)
 	}
 }
@@ -227,6 +243,47 @@ func c02(r *core.Run) {
 // reward sweep honours too: the file or the prover's slot does not exist, the wrong chunk was answered, the proof
 // does not verify. A refusal decided by any other stored field or by the block height (e.g. "the file's paid term is
 // over") locks an honest prover out while the reward sweep keeps demanding proofs from it.
+// rejectingResponse: v is a response built with Success=false — in place, or by a helper all of whose returns build
+// one.
+func rejectingResponse(p *core.Program, v ssa.Value, depth int) bool {
+	if al, ok := v.(*ssa.Alloc); ok {
+		for _, st := range fieldStores(al, "Success") {
+			if c, isC := st.Val.(*ssa.Const); isC && c.Value != nil && c.Value.ExactString() == "false" {
+				return true
+			}
+		}
+		return false
+	}
+	var call *ssa.Call
+	idx := 0
+	switch x := v.(type) {
+	case *ssa.Extract:
+		call, _ = x.Tuple.(*ssa.Call)
+		idx = x.Index
+	case *ssa.Call:
+		call = x
+	}
+	if call == nil || depth > 2 {
+		return false
+	}
+	callees := p.Callees(call)
+	if len(callees) != 1 || callees[0].Blocks == nil {
+		return false
+	}
+	n := 0
+	for _, b := range callees[0].Blocks {
+		ret, ok := b.Instrs[len(b.Instrs)-1].(*ssa.Return)
+		if !ok {
+			continue
+		}
+		n++
+		if idx >= len(ret.Results) || !rejectingResponse(p, ret.Results[idx], depth+1) {
+			return false
+		}
+	}
+	return n > 0
+}
+
 func refusalReasons(r *core.Run, rule string, h *core.Handler) {
 	p := r.Prog
 	fn := h.Fn
@@ -238,12 +295,8 @@ func refusalReasons(r *core.Run, rule string, h *core.Handler) {
 			continue
 		}
 		nRet++
-		if al, ok := ret.Results[0].(*ssa.Alloc); ok {
-			for _, st := range fieldStores(al, "Success") {
-				if c, isC := st.Val.(*ssa.Const); isC && c.Value != nil && c.Value.ExactString() == "false" {
-					rejecting[ret] = true
-				}
-			}
+		if rejectingResponse(p, ret.Results[0], 0) {
+			rejecting[ret] = true
 		}
 	}
 	onlyRejects := func(from *ssa.BasicBlock) bool {
